@@ -19,7 +19,16 @@ def bisect_stub(f, a, b, args=(), xtol=2e-12, rtol=8.881784197001252e-16, maxite
     """scipy.optimize.bisect/brentq contract: returns x* in [a, b] with f(x*) == 0.
     (existence of a root in the bracket is assumed: the real call raises otherwise)"""
     ex = current()
+    # the same equation on the same bracket asked again on this path (second object with identical data, repeated call) has
+    # the same answer: recognise it by the term of f at a probe symbol
+    from .engine import sym
+    probe = sym('__bisect_probe')
+    key = (lift(f(probe, *args)), lift(a), lift(b))
+    cache = ex.notes.setdefault('bisectcache', {})
+    if key in cache:
+        return cache[key]
     x = ex.fresh('root')
+    cache[key] = x
     ex.assume(T.le(lift(a), x.t))
     ex.assume(T.le(x.t, lift(b)))
     fx = f(x, *args)
